@@ -202,6 +202,10 @@ func Exec(tb *testing.T, prop string, tp *tape.Tape, tier string, keepAll bool, 
 					if _, ok := p.(abortRun); ok {
 						return
 					}
+					if _, ok := p.(tape.OverrunPanic); ok {
+						r.Skipped["replay-candidate-overran-tape"]++
+						return
+					}
 					st := string(debug.Stack())
 					r.Report("panic", panicSite(st), "%v\n%s", p, trimStack(st))
 				}
